@@ -138,6 +138,75 @@ def u_parseparam(c):
     c.oblige("post/with-a-leading-semicolon-the-pieces-cover-the-whole-string", Implies(lead, And(G["last_end"] == n, G["pieces"] >= 1)))
 
 
+@unit("C43", "_parse_header", [(M, "_parse_header")], bounded="at most 2 parameters after the main value (each piece an arbitrary string)")
+def u_parse_header(c):
+    """totality of the header-parameter parser, modulo the standard library: with _parseparam under its contract (unit above: pieces of the text, never raises) and
+    email.utils.decode_params as an external that returns a list of (name, plain value | RFC 2231 triple) or raises ValueError or TypeError (both observed: F-35..F-37, F-57),
+    _parse_header never raises, returns the first piece as the main value and a dict with one entry per decoded parameter; when decoding fails the parameters are kept undecoded."""
+    import types
+    import tornado.httputil as U
+    line = c.str("line")
+    npar = c.choose("parameters", [0, 1, 2])
+    key_piece = c.str("main_value")
+    pieces = [c.str("piece_%d" % i) for i in range(npar)]
+    if not c.symbolic and c.model is None:
+        pieces = [c.rng.choice(["a=b", "x", "A = 1 ", "=", "n*=utf-8''x", "n*1=y", ""]) for _ in range(npar)]
+    seen = {}
+
+    def parseparam(text):
+        seen["text"] = text
+        yield key_piece
+        for p_ in pieces:
+            yield p_
+    outcome = c.choose("decode_params", ["returns-plain", "returns-rfc2231-triples", "ValueError", "TypeError"])
+    given = []
+
+    def decode_params(params):
+        given.append(list(params))
+        if outcome in ("ValueError", "TypeError"):
+            e = (ValueError("Exceeds the limit for integer string conversion") if outcome == "ValueError"
+                 else TypeError("'<' not supported between instances of 'int' and 'NoneType'"))
+            e.pyvc_modelled = True           # the external's own exceptional outcome, not a harness problem
+            raise e
+        out = [params[0]]
+        for k, (nm, v) in enumerate(params[1:]):
+            out.append((nm, v) if outcome == "returns-plain" else (nm, ("utf-8", "", v)))
+        return out
+    collapsed = []
+
+    def collapse(v):
+        collapsed.append(v)
+        return "collapsed-%d" % len(collapsed)
+    em = types.SimpleNamespace(utils=types.SimpleNamespace(decode_params=decode_params, unquote=lambda t: t, collapse_rfc2231_value=collapse))
+
+    class RecDict(dict):
+        """the result dict with symbolic names as keys: records the stores (a real dict cannot hash a symbolic string)"""
+        def __init__(self):
+            dict.__init__(self)
+            self.stores = []
+
+        def __setitem__(self, k, v):
+            self.stores.append((k, v))
+    if c.symbolic:
+        c.ghost.setdefault("literal_sorts", {})["pdict"] = RecDict
+    with c.patched((U, "_parseparam", parseparam), (U, "email", em)):
+        out = c.call(c.fn(M, "_parse_header"), line)
+    c.only_raises(out, ())
+    if not out.returned:
+        return
+    c.cover("parse_header/" + outcome)
+    key, pdict = out.value
+    c.oblige("post/main-value-is-the-first-piece", key is key_piece)
+    c.oblige("post/the-tokenizer-got-the-line-behind-a-semicolon", SBool(seen["text"].t == z3.Concat(z3.StringVal(";"), line.t)) if c.symbolic else seen["text"] == ";" + line)
+    c.oblige("post/decode_params-asked-once-with-the-dummy-first", len(given) == 1 and given[0][0] == ("Dummy", "value"))
+    n_named = len(given[0]) - 1 if given else 0
+    c.oblige("post/one-parameter-per-piece-with-an-equals-sign-none-invented", n_named <= npar and len(collapsed) == n_named)
+    vals = [v for (_k, v) in pdict.stores] if isinstance(pdict, RecDict) else list(pdict.values())
+    c.oblige("post/result-is-a-dict-of-text", isinstance(pdict, dict) and all(isinstance(v, str) for v in vals) and len(vals) <= n_named)
+    if outcome in ("ValueError", "TypeError"):
+        c.oblige("post/undecodable-parameters-are-kept-undecoded", [v for v in collapsed] == [v for (_n, v) in given[0][1:]])
+
+
 @unit("C43", "split_host_and_port", [(M, "split_host_and_port")])
 def u_split(c):
     import tornado.httputil as U
